@@ -356,6 +356,55 @@ fn apply_norm(n: Norm, s: &str, a: &Value) -> Option<(String, Value)> {
             }
         }
         Norm::NegNumberSuffix => {
+            // an elastic range whose bound is a negative number followed by `^…` (">-2.2^5"): strict
+            // ends the bound with its number rule, lenient reads the relaxed word "-2.2^5".
+            // Counterfactual: the equivalent bracket range ("{-2.2 TO *}^5"), same strict tree.
+            {
+                let mut i = 0;
+                while i < cs.len() {
+                    if cs[i] == '>' || cs[i] == '<' {
+                        let gt = cs[i] == '>';
+                        let mut j = i + 1;
+                        let incl = j < cs.len() && cs[j] == '=';
+                        if incl {
+                            j += 1;
+                        }
+                        while j < cs.len() && " \t\r\n".contains(cs[j]) {
+                            j += 1;
+                        }
+                        if j + 1 < cs.len() && cs[j] == '-' && cs[j + 1].is_ascii_digit() {
+                            let mut k = j + 1;
+                            while k < cs.len() && cs[k].is_ascii_digit() {
+                                k += 1;
+                            }
+                            if k + 1 < cs.len() && cs[k] == '.' && cs[k + 1].is_ascii_digit() {
+                                k += 1;
+                                while k < cs.len() && cs[k].is_ascii_digit() {
+                                    k += 1;
+                                }
+                            }
+                            if k < cs.len() && cs[k] == '^' {
+                                let num: String = cs[j..k].iter().collect();
+                                let repl: String = match (gt, incl) {
+                                    (true, false) => format!("{{{num} TO *}}"),
+                                    (true, true) => format!("[{num} TO *]"),
+                                    (false, false) => format!("{{* TO {num}}}"),
+                                    (false, true) => format!("{{* TO {num}]"),
+                                };
+                                let mut c2 = cs.clone();
+                                c2.splice(i..k, repl.chars());
+                                if strict_tree(&text(&c2)).as_ref() == Some(&tree) {
+                                    cs = c2;
+                                    changed = true;
+                                    i += repl.chars().count();
+                                    continue;
+                                }
+                            }
+                        }
+                    }
+                    i += 1;
+                }
+            }
             // `-1~2`, `-1*`: strict reads the number, then the slop / prefix mark; lenient has no
             // number rule and reads one word. Counterfactual: quote the number (the tree may differ
             // only in that literal's delimiter).
@@ -386,6 +435,11 @@ fn apply_norm(n: Norm, s: &str, a: &Value) -> Option<(String, Value)> {
             }
         }
         Norm::Touching => {
+          // several passes: an accepted edit can leave a touching pair to its left when the strict
+          // tree tolerated it only because rewrite_ast deduplicates equal clauses ("^0.0" with the
+          // clauses `.` and `0` present elsewhere: "^0. 0" is accepted, "^0 . 0" only afterwards)
+          for _pass in 0..4 {
+            let before = cs.len();
             let mut i = 1;
             while i < cs.len() {
                 let (mut p, c) = (cs[i - 1], cs[i]);
@@ -408,6 +462,10 @@ fn apply_norm(n: Norm, s: &str, a: &Value) -> Option<(String, Value)> {
                 }
                 i += 1;
             }
+            if cs.len() == before {
+                break;
+            }
+          }
         }
     }
     if changed {
